@@ -296,11 +296,15 @@ def _strip_coq_comments(txt):
 
 
 def coq_make(targets, timeout=1800):
-    """make the given .vo targets (full .vo build). Returns (ok, log)."""
+    """make the given .vo targets (full .vo build). Returns (ok, log).
+    The Makefile is generated from the entries of _CoqProject whose files exist (so that a file listed
+    before it is written does not block everybody else)."""
     with Lock("coq"):
-        if not os.path.exists(os.path.join(COQDIR, "Makefile")) or \
-                os.path.getmtime(os.path.join(COQDIR, "Makefile")) < os.path.getmtime(os.path.join(COQDIR, "_CoqProject")):
-            rc, so, se = run(["coq_makefile", "-f", "_CoqProject", "-o", "Makefile"], cwd=COQDIR)
+        lines = open(os.path.join(COQDIR, "_CoqProject")).read().split("\n")
+        keep = [l for l in lines if not l.strip().endswith(".v") or os.path.exists(os.path.join(COQDIR, l.strip()))]
+        changed = _write_if_changed(os.path.join(COQDIR, "_CoqProject.local"), "\n".join(keep) + "\n")
+        if changed or not os.path.exists(os.path.join(COQDIR, "Makefile")):
+            rc, so, se = run(["coq_makefile", "-f", "_CoqProject.local", "-o", "Makefile"], cwd=COQDIR)
             if rc != 0:
                 return False, se
         rc, so, se = run(["make", "-k", "-j%d" % NCPU] + list(targets), cwd=COQDIR, timeout=timeout)
